@@ -185,6 +185,29 @@ def check_case(W, datamap, s):
     return out, ("found" if found_any else "nothing-found")
 
 
+def no_getter_reads(W, only=None):
+    from spil import Sid, GetFromAll
+    from mc import datagen
+    out = []
+    seen = set()
+    for s in datagen.closure_list(W.ref, W.leaves):
+        t = W.ref.natural(s)[0]
+        if t not in W.sources or t in seen:
+            continue
+        seen.add(t)
+        for form, arg in (("str", s), ("sid", Sid(s)), ("uri", t + ":" + s)):
+            if only and [s, form] != only:
+                continue
+            try:
+                got = [GetFromAll().get_data(arg), GetFromAll().get_attr(arg, "a"), GetFromAll().get_attr(arg, "sid"), GetFromAll().get_one(arg), list(GetFromAll().get(arg))]
+                want = [{}, None, None, {}, []]
+                if json.loads(json.dumps(got, default=str)) != want:
+                    out.append(dict(signature="type-without-getter-yields-something/" + form, case=[s, form], observed=got, expected=want))
+            except Exception as e:  # noqa
+                out.append(dict(signature=f"type-without-getter-fails/{type(e).__name__}/" + form, case=[s, form], observed=repr(e)[:120], expected="nothing, without failing"))
+    return out
+
+
 def searches(ref, W, k):
     from props import c11
     for s in c11.searches(ref, W, "thorough" if k >= 2 else "quick"):
@@ -226,6 +249,11 @@ def run_shard(sh):
         rec.case(cls, cls == "found", sample=[sh["universe"], sh["data"], s])
         for x in v:
             rec.violation(x["signature"], "search", [sh["universe"], sh["data"], s], x["observed"], x["expected"])
+    # types configured without a Getter: every read form, for the string and for the Sid object, yields nothing without failing
+    if sh["index"] == 0:
+        for v in no_getter_reads(W):
+            rec.violation(v["signature"], "no-getter", [sh["universe"], sh["data"], v["case"]], v["observed"], v["expected"])
+        rec.case("no-getter-types", True)
     rec.extra = {"universe": sh["universe"], "data": sh["data"], "sidecars": len(datamap), "first_loaded": first}
     return worlds.tag_first(rec.result(), first)
 
@@ -237,6 +265,9 @@ def replay_case(kind, case):
     worlds.touch_first()
     W = worlds.World(ref, worlds.universes(ref, "thorough")[case[0]], case[0])
     datamap = build(W, case[1])
+    if kind == "no-getter":
+        env.reset()
+        return [dict(v) for v in no_getter_reads(W, only=case[2])]
     env.reset()
     return check_case(W, datamap, case[2])[0]
 
